@@ -921,6 +921,40 @@ def corr_hilbert(seed, tier):
     return R
 
 
+# ----------------------------------------------------------------------------------------------------- ExtendedEOF embedding
+def corr_eeof(seed, tier):
+    """ExtendedEOF.fit (no PCA pre-reduction) against XM.embedMatrix with the generated `eeofSamplesKept` / `eeofShift`: the matrix
+    handed to the inner EOF's solver (before its centring is undone: compared after removing column means when `center=True`) must be
+    the delay-embedded preprocessed series — same number of rows, same columns (compared as a multiset of columns, the column order
+    being the inner model's private layout) — for tau 1..4 and embedding 1..4."""
+    R = Result("eeof")
+    rng = np.random.default_rng(19000 + seed)
+    reqs, exps = [], []
+    for i in range({"quick": 8, "thorough": 60, "search": 30}[tier]):
+        tau, emb = int(rng.integers(1, 5)), int(rng.integers(1, 5))
+        p = int(rng.integers(1, 4))
+        n = (emb - 1) * tau + int(rng.integers(6, 20))
+        A = np.round(rng.normal(size=(n, p)) + np.sin(np.arange(n))[:, None] * 2, 8)
+        center = bool(i % 2)
+        with _SvdSpy() as spy, warnings.catch_warnings():
+            warnings.simplefilter("ignore")
+            m = xe.single.ExtendedEOF(n_modes=1, tau=tau, embedding=emb, center=center, solver="full").fit(da2d(A, "time", "x"), "time")
+        Din = spy.inputs[-1]
+        Xp = A - A.mean(axis=0) if center else A  # the ExtendedEOF preprocessor
+        R.tally("tau", tau)
+        R.tally("embedding", emb)
+        reqs.append({"fn": "eeof", "n": n, "p": p, "tau": tau, "embedding": emb, "X": bits(Xp)})
+        exps.append((Din, center, {"n": n, "p": p, "tau": tau, "embedding": emb, "center": center, "seed": seed}))
+    for (Din, center, small), ans in zip(exps, ask(reqs)):
+        E = unbits(ans["E"], (ans["rows"], ans["cols"]))
+        R.cmp("shape", list(Din.shape) == [ans["rows"], ans["cols"]], small, [ans["rows"], ans["cols"]], list(Din.shape))
+        if list(Din.shape) == [ans["rows"], ans["cols"]]:
+            Ec = E - E.mean(axis=0) if center else E  # the inner EOF centres the embedded matrix when asked to
+            key = lambda M: sorted(tuple(np.round(c, 9)) for c in M.T)  # noqa: E731
+            R.cmp("columns", key(Ec) == key(Din) or close(np.array(key(Ec)), np.array(key(Din)), 1e-9), small, Ec[:2].tolist(), Din[:2].tolist())
+    return R
+
+
 # ----------------------------------------------------------------------------------------------------- Scaler
 def corr_scaler(seed, tier):
     """preprocessing.Scaler.fit/transform/inverse_transform_data on (sample, feature) arrays against XM.scalerTransform /
@@ -1665,6 +1699,7 @@ CORR = {
     "opa": corr_opa,
     "pop": corr_pop,
     "hilbert": corr_hilbert,
+    "eeof": corr_eeof,
     "scaler": corr_scaler,
     "threshold": corr_threshold,
     "validators": corr_validators,
@@ -1679,7 +1714,7 @@ CORR = {
 
 # which correspondences tie the model parts a property's theorems are stated on
 BY_PROP = {
-    "C01": ["complex", "eof_pipeline", "hilbert", "sign_rule"],
+    "C01": ["complex", "eof_pipeline", "hilbert", "eeof", "sign_rule"],
     "C02": ["frame"],
     "C03": ["complex", "eof_pipeline", "scaler", "cpcca_core"],
     "C04": ["complex", "eof_pipeline", "cpcca_core", "rotator"],
@@ -1688,7 +1723,7 @@ BY_PROP = {
     "C07": ["frame"],
     "C08": ["scaler", "eof_pipeline"],
     "C09": ["complex", "cpcca_core", "whitener", "formulas"],
-    "C10": ["complex", "cpcca_core", "whitener", "formulas"],
+    "C10": ["eeof", "complex", "cpcca_core", "whitener", "formulas"],
     "C11": ["complex", "rotator", "formulas"],
     "C12": ["lazy"],
     "C13": ["codec"],
